@@ -276,7 +276,10 @@ pub fn run(ctx: &Ctx, out: &mut Out) {
         }
         jobs.push((p.text.clone(), goals));
     }
-    for (text, goals) in jobs {
+    for (jidx, (text, goals)) in jobs.into_iter().enumerate() {
+        if !ctx.mine(jidx) {
+            continue;
+        }
         let (_db, program) = match lower_program(&text, chalk_integration::SolverChoice::slg_default()) {
             Ok(x) => x,
             Err(e) => {
@@ -312,6 +315,10 @@ pub fn run(ctx: &Ctx, out: &mut Out) {
                 }
             };
             for (name, choice) in solver_choices() {
+                if !ctx.inflight(&format!("{} | {} | goal {{ {} }}", name, text.replace('\n', " | "), gtext)) {
+                    out.count("skipped_crashed_earlier");
+                    continue;
+                }
                 let r = solve_fresh(&text, &peeled, choice);
                 let kind = answer_kind(&r);
                 out.count(&format!("{}_k{}_{}", name, k % 4, kind));
